@@ -153,3 +153,68 @@ def run(P, C, tier):
              "old_fts_str / node_fts_str are never reset to None once extracted (sites: %s): without the previous text the 'delete' command of the content-less index cannot remove it" % (none_stores or "none"))
     except mir.MissingAnchor as e:
         C.anchor_missing("R4", "get_mutate_query", e)
+    r5_index_flag(P, C)
+
+
+def r5_index_flag(P, C):
+    C.rule("R5", "whether an entity is indexed is fixed when the entity is declared: the model's enable_full_text is written only where the declaration is parsed. "
+                 "Node::write skips BOTH the 'delete' of the old text and the insert of the new one while the flag is off, and nothing re-indexes rows afterwards, "
+                 "so a flag that a later model version can switch off and on again leaves stale text matching and current text missing; "
+                 "every consumer copies the flag from the model entity")
+    writers = []
+    for b in sorted(P.bodies.values(), key=lambda x: x.id):
+        if "::tests::" in b.id or "_test::" in b.id or "seeded_demo" in b.id:
+            continue
+        for bi in sorted(b.live_blocks()):
+            for si, st in enumerate(b.blocks[bi]["s"]):
+                if st["lhs"][-1:] == [".enable_full_text"] and len(st["lhs"]) > 1:
+                    root = b.locals[st["lhs"][0]]
+                    # look through references to the struct that owns the field
+                    owner = re.sub(r"^&(mut )?", "", root)
+                    t = b.def_term(bi, si, st["rv"], 0, expand_vars=True)
+                    writers.append((b, bi, owner, t))
+    n = 0
+    for b, bi, owner, t in writers:
+        if owner.endswith("data_model_parser::Entity"):
+            n += 1
+            ok = b.id.endswith("DataModel::parse_entity")
+            C.ob("R5", "index-flag-fixed-at-declaration:%s" % mir.short(b.id), ok, b.loc(bi),
+                 "Entity.enable_full_text := %s in %s%s" % (term_str(t)[:50], mir.short(b.id), "" if ok else " -- a model update can now change the flag of an existing entity"))
+        else:
+            n += 1
+            src = field_path(strip_refs(t))
+            ok = src.endswith(".enable_full_text")
+            C.ob("R5", "index-flag-copied-from-model:%s" % mir.short(b.id), ok, b.loc(bi), "%s.enable_full_text := %s" % (mir.short_type(owner), term_str(t)[:60]))
+    C.floor("R5", "stores of an index flag", n, 3)
+    r6_nested_flag(P, C)
+
+
+def r6_nested_flag(P, C):
+    C.rule("R6", "sibling builders agree: every function that completes an EntityMutation from the model entity (copies its short_name) also copies the model's "
+                 "enable_full_text -- an EntityMutation keeps the default `true` otherwise, so a nested row of an entity declared no_full_text_index is indexed on creation, "
+                 "and its nested update issues the FTS 'delete' for text that was never indexed (the engine answers `database disk image is malformed`)")
+    n = 0
+    for b in sorted(P.bodies.values(), key=lambda x: x.id):
+        if "mutation_parser::MutationParser::" not in b.id or "::tests::" in b.id:
+            continue
+        shorts = []
+        flags = []
+        for bi in sorted(b.live_blocks()):
+            for si, st in enumerate(b.blocks[bi]["s"]):
+                if len(st["lhs"]) < 2:
+                    continue
+                root = re.sub(r"^&(mut )?", "", b.locals[st["lhs"][0]])
+                if not root.endswith("mutation_parser::EntityMutation"):
+                    continue
+                if st["lhs"][-1] == ".short_name":
+                    shorts.append((bi, st["lhs"][0], b.def_term(bi, si, st["rv"], 0)))
+                if st["lhs"][-1] == ".enable_full_text":
+                    flags.append((bi, st["lhs"][0], b.def_term(bi, si, st["rv"], 0)))
+        for bi, tgt, t in shorts:
+            if not field_path(strip_refs(t[2][0] if t[0] == "call" and t[2] else t)).endswith(".short_name"):
+                continue
+            n += 1
+            ok = any(ft == tgt and field_path(strip_refs(fv)).endswith(".enable_full_text") for _, ft, fv in flags)
+            C.ob("R6", "flag-copied-with-short-name:%s" % mir.short(b.id), ok, b.loc(bi),
+                 "%s completes an EntityMutation from the model entity: short_name copied, enable_full_text copied: %s" % (mir.short(b.id), ok))
+    C.floor("R6", "builders of an EntityMutation from the model", n, 3)
